@@ -310,3 +310,64 @@ Proof.
   pose proof (lead_skip_stars r [] H) as Hs. destruct (skip_stars [] r) as [acc r']. cbn [snd] in Hs.
   rewrite Hs. reflexivity.
 Qed.
+
+(* ---------- '?' outside brackets *)
+Definition dbal (ts : list ptok) : Prop := forall d l, topq_d d (ts ++ l) = topq_d d ts || topq_d d l.
+
+Lemma dbal_nil : dbal [].
+Proof. intros d l. reflexivity. Qed.
+
+Lemma dbal_app : forall a b, dbal a -> dbal b -> dbal (a ++ b).
+Proof. intros a b Ha Hb d l. rewrite <- app_assoc, Ha, Hb, Ha, orb_assoc. reflexivity. Qed.
+
+Lemma dbal_one : forall t, match snd t with TLP | TLB | TRP | TRB => False | _ => True end -> dbal [t].
+Proof.
+  intros t H d l. cbn [app topq_d]. destruct (snd t); try destruct H; rewrite ?orb_false_r; reflexivity.
+Qed.
+
+Lemma dbal_group : forall (o c : ptok) ts,
+  (snd o = TLP \/ snd o = TLB) -> (snd c = TRP \/ snd c = TRB) -> dbal ts -> dbal (o :: ts ++ [c]).
+Proof.
+  intros o c ts Ho Hc H d l. cbn [app]. rewrite <- app_assoc. cbn [app].
+  assert (E1 : topq_d d (o :: ts ++ c :: l) = topq_d (S d) (ts ++ c :: l)) by (cbn [topq_d]; destruct Ho as [-> | ->]; reflexivity).
+  assert (E2 : topq_d d (o :: ts ++ [c]) = topq_d (S d) (ts ++ [c])) by (cbn [topq_d]; destruct Ho as [-> | ->]; reflexivity).
+  rewrite E1, E2, !H.
+  assert (E3 : topq_d (S d) (c :: l) = topq_d d l) by (cbn [topq_d]; destruct Hc as [-> | ->]; reflexivity).
+  assert (E4 : topq_d (S d) [c] = false) by (cbn [topq_d]; destruct Hc as [-> | ->]; reflexivity).
+  rewrite E3, E4, orb_false_r. reflexivity.
+Qed.
+
+Lemma dbal_wrap : forall b l ts, dbal ts -> dbal (wrap b l ts).
+Proof. intros [] l ts H; [|exact H]. apply (dbal_group (l, TLP) (l, TRP)); [left; reflexivity|left; reflexivity|exact H]. Qed.
+
+Lemma dbal_cons : forall t ts, dbal [t] -> dbal ts -> dbal (t :: ts).
+Proof. intros t ts H1 H2. apply (dbal_app [t] ts H1 H2). Qed.
+
+Ltac dbl :=
+  repeat first
+    [ assumption | apply dbal_nil | apply dbal_wrap
+    | apply dbal_one; exact I
+    | match goal with
+      | |- dbal [(?a, TLP); (?b, TRP)] => exact (dbal_group (a, TLP) (b, TRP) [] (or_introl eq_refl) (or_introl eq_refl) dbal_nil)
+      | |- dbal ((_, TLP) :: _ ++ [(_, TRP)]) => apply dbal_group; [left; reflexivity|left; reflexivity|]
+      | |- dbal ((_, TLB) :: _ ++ [(_, TRB)]) => apply dbal_group; [right; reflexivity|right; reflexivity|]
+      | |- dbal (_ ++ _) => apply dbal_app
+      | |- dbal [_] => fail 1
+      | |- dbal (_ :: _) => apply dbal_cons
+      end ].
+
+Lemma render_dbal : forall e, dbal (render e).
+Proof.
+  induction e; cbn [render]; dbl.
+Qed.
+
+Lemma renderP_dbal : forall e, dbal (renderP e).
+Proof.
+  induction e; cbn [renderP]; dbl.
+Qed.
+
+Lemma topq_hasq : forall l d, topq_d d l = true -> hasq l = true.
+Proof.
+  induction l; intros d H; [discriminate|]. cbn [topq_d] in H. cbn [hasq existsb]. fold (hasq l).
+  destruct (snd a); try (rewrite (IHl _ H); apply orb_true_r). reflexivity.
+Qed.
